@@ -36,8 +36,34 @@ def gen_case(rng):
     for _ in range(rng.choice([1, 1, 2, 3, 4])):
         vals = [None if rng.random() < 0.2 else E.gen_value(rng, c['type']) for c in cols]
         rows.append({'vals': vals, 'foreign': rng.random() < 0.15})
+    case = _finish(rng, cols, rows)
+    if rng.random() < 0.25:
+        # ALTER TABLE ADD between PREPARE and EXECUTE: the response carries new metadata with one more (plain) column,
+        # preferably right before an encrypted one; the statement still holds the old metadata
+        encs = [i for i, c in enumerate(cols) if c['key'] is not None]
+        pos = rng.choice(encs) if encs and rng.random() < 0.8 else rng.randint(0, len(cols))
+        t = rng.choice(E.SIMPLE + E.COLLECTIONS)
+        case['pv'] = 5
+        case['changed'] = {'pos': pos, 'col': {'type': t, 'key': None},
+                           'vals': [None if rng.random() < 0.25 else E.gen_value(rng, t) for _ in rows]}
+    return case
+
+
+def _finish(rng, cols, rows):
     return {'pv': rng.choice([3, 4, 5]), 'iv': bytes(rng.randrange(256) for _ in range(16)).hex(),
             'iv2': bytes(rng.randrange(256) for _ in range(16)).hex(), 'cols': cols, 'rows': rows}
+
+
+def effective(case):
+    """columns / row values as the ROWS frame describes them (with the added column when the metadata changed)"""
+    ch = case.get('changed')
+    cols = list(case['cols'])
+    vals = [list(r['vals']) for r in case['rows']]
+    if ch:
+        cols.insert(ch['pos'], ch['col'])
+        for r, v in enumerate(ch['vals']):
+            vals[r].insert(ch['pos'], v)
+    return cols, vals
 
 
 def pkcs7_unpad(p):
@@ -53,7 +79,7 @@ def evaluate(case):
     """-> (res, problems [(key, what, theorem)], normalised wire or None)"""
     res = E.run_impl(case)
     probs = []
-    cols = case['cols']
+    cols, evals = effective(case)
     if res['bind_err']:
         probs.append(('bind.raised', 'binding valid values raised %s' % res['bind_err'], 'C39_transparent'))
         return res, probs, None
@@ -65,7 +91,7 @@ def evaluate(case):
         nrow = []
         for i, c in enumerate(cols):
             cell, ser = res['wire'][r][i], res['ser'][r][i]
-            if row['vals'][i] is None:
+            if evals[r][i] is None:
                 if c['key'] is not None:
                     null_in_enc = True
                 if cell is not None:
@@ -88,8 +114,8 @@ def evaluate(case):
                 else:
                     nrow.append(list(cell[:16] + padded))
         norm.append(nrow)
-    want = [[E.canon(E.pyval(v)) for v in row['vals']] for row in case['rows']]
-    cls = '.null-in-encrypted-column' if null_in_enc else ''
+    want = [[E.canon(E.pyval(v)) for v in vs] for vs in evals]
+    cls = '.metadata-changed' if case.get('changed') else ('.null-in-encrypted-column' if null_in_enc else '')
     if res['decode_err']:
         probs.append(('decode.raised' + cls, 'decoding the echoed result raised %s' % res['decode_err'], 'C39_transparent'))
     elif res['decoded'] != want:
@@ -98,7 +124,9 @@ def evaluate(case):
 
 
 def g_case(case, res, norm):
-    keys = '[' + '; '.join('None' if c['key'] is None else '(Some [%d])' % (i + 1) for i, c in enumerate(case['cols'])) + ']'
+    cols, _ = effective(case)
+    keys = '[' + '; '.join('None' if c['key'] is None else '(Some [%d])' % (i + 1) for i, c in enumerate(cols)) + ']'
+    cached = '[' + '; '.join('None' if c['key'] is None else '(Some [%d])' % (i + 1) for i, c in enumerate(case['cols'])) + ']'
     parts = []
     for foreign in (False, True):
         idx = [r for r, row in enumerate(case['rows']) if bool(row.get('foreign')) == foreign]
@@ -108,7 +136,10 @@ def g_case(case, res, norm):
         sers = [[None if c is None else list(c) for c in res['ser'][r]] for r in idx]
         parts.append('c39_rows_eqb (fst (c39_run %s %s %s)) (Some %s)' % (iv, keys, E.g_rows(sers), E.g_rows([norm[r] for r in idx])))
     dec = None if (res['decode_err'] or res['decoded_ser'] is None) else [[None if c is None else list(c) for c in r] for r in res['decoded_ser']]
-    parts.append('c39_rows_eqb (c39_decode %s %s) %s' % (keys, E.g_rows(norm), E.g_opt_rows(dec)))
+    if case.get('changed'):
+        parts.append('c39_rows_eqb (c39_recv (Some %s) %s %s) %s' % (keys, cached, E.g_rows(norm), E.g_opt_rows(dec)))
+    else:
+        parts.append('c39_rows_eqb (c39_recv None %s %s) %s' % (keys, E.g_rows(norm), E.g_opt_rows(dec)))
     return ' && '.join('(%s)' % p for p in parts)
 
 
@@ -137,7 +168,7 @@ def run(ctx):
                 cases.append(json.load(f)['case'])
     cases += [gen_case(rng) for _ in range(ncases)]
     ctx.rule = ('random column sets (1-4 columns of 19 simple CQL types, ~65% encrypted with a random 256-bit key; plain columns may also be '
-                'list/set/map) x 1-4 rows with 20% nulls, 15% of rows written under a different IV, protocol 3/4/5; plus the corpus; '
+                'list/set/map) x 1-4 rows with 20% nulls, 15% of rows written under a different IV, protocol 3/4/5; 25% of the cases decode a v5 Metadata_changed response (new in-frame column list with an added plain column, old list cached with the statement); plus the corpus; '
                 'non-trivial = distinct case with at least one encrypted column')
     ctx.exhaustive = False
     t1 = time.time()
@@ -153,6 +184,7 @@ def run(ctx):
         for row in case['rows']:
             for c, v in zip(case['cols'], row['vals']):
                 ctx.count('cell', ('enc' if c['key'] else 'plain') + ('-null' if v is None else ''))
+        ctx.count('metadata', 'in-frame (changed after ALTER TABLE)' if case.get('changed') else 'cached with the statement')
         ctx.count('outcome', 'decode-error' if res.get('decode_err') else ('bind-error' if res['bind_err'] else 'ok'))
         for key, what, thm in probs:
             ctx.violation(key, what + '  [case %s]' % short(case), case=case, expected='rows decode to the bound values', actual=short(res), theorem=thm)
